@@ -237,7 +237,7 @@ pub fn run_random(seed: u64, count: usize, max_instances: usize, mode: &str, out
             xml_safe: false,
             props_per_instance: 4,
         };
-        let dom = if mode == "shapes" || mode == "scale" { gen::shaped_dom(&mut rng, false, mode == "scale") } else { gen::random_dom(&mut rng, &spec, &known) };
+        let dom = if mode == "shapes" || mode == "scale" { gen::shaped_dom(&mut rng, false, mode == "scale", &known) } else { gen::random_dom(&mut rng, &spec, &known) };
         let roots = pick_roots(&mut rng, &dom);
         let ev = bin_event(&format!("bin:{}:{}", seed, i), &dom, &roots, i % 4 == 0);
         serde_json::to_writer(&mut *out, &ev).unwrap();
